@@ -110,6 +110,7 @@ static int fill(Rng &r, const Cfg &c, Metadata *m, int depth) {
   int ne = 0;
   int k = (int)r.below(100);
   if (k < 25) ne = 0; else if (k < 70) ne = 1 + (int)r.below(3); else if (k < 95) ne = (int)r.below(12); else ne = (int)r.below(c.max_entries + 1);
+  if (c.max_entries > 100 && depth == 0) ne = (int)r.range(254, c.max_entries);
   std::vector<std::string> used;
   for (int i = 0; i < ne && *c.budget > 0; i++) {
     std::string nm = (!used.empty() && r.chance(10)) ? used[r.below(used.size())] : gen_name(r, c);
@@ -120,6 +121,7 @@ static int fill(Rng &r, const Cfg &c, Metadata *m, int depth) {
   int maxd = depth;
   if (depth < c.max_depth) {
     int ns = r.chance(30) ? 0 : 1 + (int)r.below(c.max_subs);
+    if (c.max_subs > 100 && depth == 0) ns = (int)r.range(254, c.max_subs);
     for (int i = 0; i < ns && *c.budget > 0; i++) {
       // sub names may repeat entry names (different maps) and, rarely, each other (AddSubMetadata then fails)
       std::string nm = (!used.empty() && r.chance(25)) ? used[r.below(used.size())] : gen_name(r, c);
@@ -149,6 +151,8 @@ static std::unique_ptr<GeometryMetadata> gen_geom(Rng &r, int &maxdepth) {
   Cfg c;
   c.long_names = r.chance(6); c.empty_values = r.chance(6); c.big_values = r.chance(8);
   c.max_depth = (int)r.below(9); c.max_entries = 40; c.max_subs = 1 + (int)r.below(4); c.budget = &budget;
+  // counts are varints: levels with more than 255 entries / more than 255 sub-metadata (a count squeezed into one byte would wrap)
+  const int wide = (int)r.below(100); if (wide < 3) { c.max_entries = 330; budget = 1500; c.max_depth = (int)r.below(2); } else if (wide < 5) { c.max_subs = 290; budget = 1800; c.max_depth = 1; }
   std::unique_ptr<GeometryMetadata> g(new GeometryMetadata());
   maxdepth = fill(r, c, g.get(), 0);
   int na = r.chance(50) ? 0 : (int)r.below(4);
